@@ -344,8 +344,8 @@ def float_to_int(v):
         raise Unsupported("float to int in bv mode")
     if v.known_finite:
         return SInt(tr)
-    u = z3.Int(fresh_name('cast'))
-    return SInt(z3.If(v.is_fin().z(), tr, u))
+    from .values import nf_cast
+    return SInt(z3.If(v.is_fin().z(), tr, nf_cast(v.ztag(), v.val)))
 
 
 def call_method(eng, s, fr, bm, args, kwargs, lineno, node):
@@ -487,11 +487,12 @@ def np_array(eng, s, fr, args, kwargs, lineno):
 
 
 def array_copy(eng, s, arr):
+    snap = _Snap(dict(s.heap))   # operands are read as they are NOW (numpy evaluates eagerly)
     if arr.ndim == 1:
-        return new_lambda_array(s, arr.elem, arr.base.dtype, arr.length(), lambda k: cell(s, arr, k), 'copy')
+        return new_lambda_array(s, arr.elem, arr.base.dtype, arr.length(), lambda k: cell(snap, arr, k), 'copy')
     if arr.ndim == 2:
         r, c = arr.shape()
-        return new_lambda_array2(s, arr.elem, arr.base.dtype, r, c, lambda i, j: cell2(s, arr, i, j), 'copy')
+        return new_lambda_array2(s, arr.elem, arr.base.dtype, r, c, lambda i, j: cell2(snap, arr, i, j), 'copy')
     raise Unsupported("copy of >2-d array")
 
 
@@ -507,12 +508,13 @@ def new_lambda_array2(s, elem, dtype, r, c, fn, name='lam2'):
 
 
 def array_astype(eng, s, fr, arr, dt):
+    snap = _Snap(dict(s.heap))   # operands are read as they are NOW (numpy evaluates eagerly)
     d = _dtype_of(dt)
     if arr.ndim != 1:
         raise Unsupported("astype of n-d array")
 
     def conv(k):
-        v = cell(s, arr, k)
+        v = cell(snap, arr, k)
         if d.elem == 'int' and isinstance(v, SFloat):
             return float_to_int(v)
         return _coerce(d.elem, v)
@@ -537,12 +539,14 @@ def _len_of(s, a, b):
 
 
 def elementwise_compare(eng, s, fr, op, a, b):
+    snap = _Snap(dict(s.heap))   # operands are read as they are NOW (numpy evaluates eagerly)
     n = _len_of(s, a, b)
     return new_lambda_array(s, 'bool', 'bool', n,
-                            lambda k: eng.compare(op, _bcast(s, a, k), _bcast(s, b, k), s, fr), 'cmp')
+                            lambda k: eng.compare(op, _bcast(snap, a, k), _bcast(snap, b, k), s, fr), 'cmp')
 
 
 def elementwise_binop(eng, s, fr, op, a, b):
+    snap = _Snap(dict(s.heap))   # operands are read as they are NOW (numpy evaluates eagerly)
     n = _len_of(s, a, b)
     ea = a.elem if isinstance(a, SArr) else ('float' if isinstance(a, SFloat) else 'bool' if isinstance(a, SBool) else 'int')
     eb = b.elem if isinstance(b, SArr) else ('float' if isinstance(b, SFloat) else 'bool' if isinstance(b, SBool) else 'int')
@@ -554,7 +558,7 @@ def elementwise_binop(eng, s, fr, op, a, b):
         elem, dtype = 'int', 'int64'
 
     def f(k):
-        x, y = _bcast(s, a, k), _bcast(s, b, k)
+        x, y = _bcast(snap, a, k), _bcast(snap, b, k)
         if isinstance(op, ast.Div):
             return to_float(x) / to_float(y)
         return eng.binop(op, x, y, s, fr)
@@ -562,8 +566,9 @@ def elementwise_binop(eng, s, fr, op, a, b):
 
 
 def elementwise_unop(eng, s, fr, op, a):
+    snap = _Snap(dict(s.heap))   # operands are read as they are NOW (numpy evaluates eagerly)
     def f(k):
-        v = cell(s, a, k)
+        v = cell(snap, a, k)
         if op == 'invert':
             return ~to_bool(v) if a.elem == 'bool' else ~to_int(v)
         if op == 'isfinite':
@@ -689,6 +694,7 @@ def copy_into(eng, s, fr, tgt, v, lineno=0):
 
 
 def load_fancy(eng, s, fr, arr, items, lineno):
+    snap = _Snap(dict(s.heap))   # operands are read as they are NOW (numpy evaluates eagerly)
     if len(items) != 1 or arr.ndim != 1:
         if arr.ndim == 2 and len(items) == 2 and items[0][0] == 'fancy' and items[1][0] == 'slice' \
                 and items[1][1] is None and items[1][2] is None and items[1][3] is None:
@@ -698,13 +704,13 @@ def load_fancy(eng, s, fr, arr, items, lineno):
             eng.oblige(fr, s, 'index', 'fancy-index-in-bounds',
                        _all_cells(s, idx, lambda v: And(v >= 0, v < r)), lineno)
             return new_lambda_array2(s, arr.elem, arr.base.dtype, n, c,
-                                     lambda i, j: cell2(s, arr, cell(s, idx, i), j), 'take')
+                                     lambda i, j: cell2(snap, arr, cell(snap, idx, i), j), 'take')
         raise Unsupported("fancy indexing form")
     kind, idx = items[0]
     n = arr.length()
     if kind == 'fancy':
         eng.oblige(fr, s, 'index', 'fancy-index-in-bounds', _all_cells(s, idx, lambda v: And(v >= 0, v < n)), lineno)
-        return new_lambda_array(s, arr.elem, arr.base.dtype, idx.length(), lambda k: cell(s, arr, cell(s, idx, k)), 'take')
+        return new_lambda_array(s, arr.elem, arr.base.dtype, idx.length(), lambda k: cell(snap, arr, cell(snap, idx, k)), 'take')
     return compress(eng, s, fr, arr, idx, lineno)
 
 
@@ -716,6 +722,7 @@ def _all_cells(s, arr, pred):
 
 
 def store_fancy(eng, s, fr, arr, items, v, lineno):
+    snap = _Snap(dict(s.heap))   # operands are read as they are NOW (numpy evaluates eagerly)
     if len(items) != 1 or arr.ndim != 1:
         raise Unsupported("fancy store form")
     kind, idx = items[0]
@@ -729,12 +736,12 @@ def store_fancy(eng, s, fr, arr, items, v, lineno):
         m = idx.length()
         if m.concrete:
             for k in range(m.v):
-                st.write(s, arr, [cell(s, idx, SInt(k))], val)
+                st.write(s, arr, [cell(snap, idx, SInt(k))], val)
             return
-        hit = lambda kk: exists('int', lambda q: And(q >= 0, q < m, cell(s, idx, q) == kk))
+        hit = lambda kk: exists('int', lambda q: And(q >= 0, q < m, cell(snap, idx, q) == kk))
     else:
         eng.oblige(fr, s, 'store', 'mask-length', idx.length() == n, lineno)
-        hit = lambda kk: to_bool(cell(s, idx, kk))
+        hit = lambda kk: to_bool(cell(snap, idx, kk))
     if base.kind != 'sym':
         cells = list(s.heap[base.id])
         for k in range(len(cells)):
@@ -763,6 +770,7 @@ def store_fancy(eng, s, fr, arr, items, v, lineno):
 def compress(eng, s, fr, arr, mask, lineno):
     """arr[mask]: cells with mask true, in order.  Assumed contract: the result has some length m,
     there is a strictly increasing index map pos[0..m) into arr hitting exactly the true cells."""
+    snap = _Snap(dict(s.heap))   # operands are read as they are NOW (numpy evaluates eagerly)
     n = arr.length()
     eng.oblige(fr, s, 'index', 'mask-length', mask.length() == n, lineno)
     if mask.base.kind == 'sym':
@@ -771,19 +779,19 @@ def compress(eng, s, fr, arr, mask, lineno):
     pos = z3.Function(fresh_name('pos'), z3.IntSort(), z3.IntSort())
     s.assume(And(m >= 0, m <= n))
     P = lambda k: SInt(pos(to_int(k).z()))
-    s.assume(forall('int', lambda k: Implies(And(k >= 0, k < m), And(P(k) >= 0, P(k) < n, to_bool(cell(s, mask, P(k))))),
+    s.assume(forall('int', lambda k: Implies(And(k >= 0, k < m), And(P(k) >= 0, P(k) < n, to_bool(cell(snap, mask, P(k))))),
                     patterns=lambda k: [P(k)]))
     s.assume(forall(['int', 'int'], lambda a, b: Implies(And(a >= 0, a < b, b < m), P(a) < P(b)),
                     patterns=lambda a, b: [z3.MultiPattern(P(a).z(), P(b).z())]))
     # surjective onto the true cells: inverse function
     inv = z3.Function(fresh_name('rank'), z3.IntSort(), z3.IntSort())
     R = lambda j: SInt(inv(to_int(j).z()))
-    s.assume(forall('int', lambda j: Implies(And(j >= 0, j < n, to_bool(cell(s, mask, j))),
+    s.assume(forall('int', lambda j: Implies(And(j >= 0, j < n, to_bool(cell(snap, mask, j))),
                                             And(R(j) >= 0, R(j) < m, P(R(j)) == j)),
                     patterns=lambda j: [R(j)]))
     # P is injective, so the rank of a selected position is its index in the result
     s.assume(forall('int', lambda k: Implies(And(k >= 0, k < m), R(P(k)) == k), patterns=lambda k: [P(k)]))
-    res = new_lambda_array(s, arr.elem, arr.base.dtype, m, lambda k: cell(s, arr, P(k)), 'compress')
+    res = new_lambda_array(s, arr.elem, arr.base.dtype, m, lambda k: cell(snap, arr, P(k)), 'compress')
     res.base.name = 'compress'
     res.base.meta.update({'pos': P, 'rank': R, 'mask': mask, 'count': m})
     return res
@@ -799,6 +807,7 @@ def np_nonzero(eng, s, fr, arr, lineno):
 
 
 def np_concatenate(eng, s, fr, seq, lineno):
+    snap = _Snap(dict(s.heap))   # operands are read as they are NOW (numpy evaluates eagerly)
     items = list(s.lists[seq.lid]) if isinstance(seq, SList) else list(seq.items)
     if not all(isinstance(x, SArr) and x.ndim == 1 for x in items):
         raise Unsupported("concatenate of non-1-d arrays")
@@ -811,9 +820,9 @@ def np_concatenate(eng, s, fr, seq, lineno):
     dtype = items[0].base.dtype
 
     def f(k):
-        res = cell(s, items[-1], k - starts[-1])
+        res = cell(snap, items[-1], k - starts[-1])
         for x, st0 in reversed(list(zip(items[:-1], starts[:-1]))):
-            res = merge_values(k < st0 + x.length(), cell(s, x, k - st0), res)
+            res = merge_values(k < st0 + x.length(), cell(snap, x, k - st0), res)
         return res
     return new_lambda_array(s, elem, dtype, total, f, 'concat')
 
